@@ -47,6 +47,9 @@ pub struct Menu {
     pub stop_boundary: bool,
     /// absolute stream offsets the arrival cursor may jump to (coarse arrival alphabets for long streams)
     pub arrive_to: Vec<usize>,
+    /// also issue the calls a caller may make "once too often": head write after the head is
+    /// complete, finishing write after the body is finished, following the redirect (twice)
+    pub extra_calls: bool,
 }
 
 impl Menu {
@@ -61,6 +64,7 @@ impl Menu {
             allow_giveup: true,
             stop_boundary: false,
             arrive_to: vec![],
+            extra_calls: false,
         }
     }
 }
@@ -146,6 +150,8 @@ pub enum Act {
     TryResponse,
     Read(usize),
     Proceed,
+    /// Redirect state: as_new_flow(policy) on the real flow, then a complete second exchange on the new flow
+    Follow(bool),
 }
 
 impl Act {
@@ -161,6 +167,7 @@ impl Act {
             Act::TryResponse => json!(["try_response"]),
             Act::Read(b) => json!(["read", b]),
             Act::Proceed => json!(["proceed"]),
+            Act::Follow(p) => json!(["as_new_flow", if *p { "SameHost" } else { "Never" }]),
         }
     }
     pub fn from_json(v: &Value) -> Result<Act, String> {
@@ -182,6 +189,7 @@ impl Act {
             "try_response" => Act::TryResponse,
             "read" => Act::Read(us(&v[1])),
             "proceed" => Act::Proceed,
+            "as_new_flow" => Act::Follow(v[1].as_str() == Some("SameHost")),
             o => return Err(format!("unknown act {}", o)),
         })
     }
@@ -207,6 +215,8 @@ pub struct Exch {
     pub through_redirect: bool,
     pub redirect_verdict: Option<(bool, Option<&'static str>)>,
     pub body_entered: bool,
+    /// how often as_new_flow was called on this flow
+    pub followed: u8,
 }
 
 type R = Result<(), (String, String)>;
@@ -231,6 +241,7 @@ impl Exch {
             through_redirect: false,
             redirect_verdict: None,
             body_entered: false,
+            followed: 0,
         };
         if let Some(st) = start {
             e.fast_forward(st)?;
@@ -369,6 +380,9 @@ impl Exch {
                 if n > out {
                     return Err((self.k("head-write", "counts"), format!("write({}-byte buffer) reported {} bytes", out, n)));
                 }
+                if self.head_out == self.cfg.ref_head.len() && n > 0 {
+                    return Err((self.k("head-write", "emits-after-complete"), format!("the head is complete but a further write emitted {} bytes: {:?}", n, show(&buf[..n]))));
+                }
                 let want = &self.cfg.ref_head[self.head_out.min(self.cfg.ref_head.len())..];
                 if n > want.len() || buf[..n] != want[..n] {
                     return Err((self.k("head-write", "bytes-differ"), format!("head bytes under this buffer schedule differ from the single-call head at offset {}: got {:?}, expected a prefix of {:?}", self.head_out, show(&buf[..n]), show(&want[..want.len().min(n + 20)]))));
@@ -399,6 +413,12 @@ impl Exch {
         };
         if c > i || p > out {
             return Err((key(self, "counts"), format!("write({}, {}) returned ({}, {})", i, out, c, p)));
+        }
+        if self.body_done {
+            if c != 0 || p != 0 {
+                return Err((key(self, "emits-after-finish"), format!("the body is finished but a further finishing write returned ({}, {})", c, p)));
+            }
+            return Ok(());
         }
         if chunked {
             let d = decode_strict(&buf[..p]).map_err(|e| (key(self, "bad-chunked-encoding"), format!("write({} bytes, {}-byte buffer): {:?}: {}", i, out, show(&buf[..p.min(40)]), e)))?;
@@ -706,6 +726,85 @@ impl Exch {
         Ok(())
     }
 
+    fn step_follow(&mut self, same_host: bool) -> R {
+        use ureq_proto::client::flow::RedirectAuthHeaders;
+        let nth = self.followed;
+        self.followed += 1;
+        let has_location = self.cfg.final_msg().get("location").is_some();
+        let method = self.cfg.req.method.clone();
+        let status = self.cfg.final_msg().status;
+        let AnyFlow::Redirect(r) = &mut self.flow else { unreachable!() };
+        let pol = if same_host { RedirectAuthHeaders::SameHost } else { RedirectAuthHeaders::Never };
+        let res = match crate::engine::guarded(|| r.as_new_flow(pol)) {
+            Ok(x) => x,
+            Err(p) => {
+                let k = if nth == 0 { "as-new-flow-panics" } else { "second-as-new-flow-panics" };
+                return Err((self.k("redirect", k), format!("as_new_flow() call #{} on the same redirect flow panicked: {}", nth + 1, p)));
+            }
+        };
+        if nth > 0 {
+            return Ok(()); // only "does not panic" is required of a repeated call
+        }
+        let want = crate::refmodel::redirect::new_method(&method, status);
+        match res {
+            Err(e) => {
+                if has_location {
+                    return Err((self.k("redirect", "as-new-flow-error"), format!("as_new_flow failed although a Location is present: {:?}", e)));
+                }
+                Ok(())
+            }
+            Ok(None) => {
+                if want.is_some() && has_location {
+                    return Err((self.k("redirect", "not-followed"), format!("{} {}: redirect not followed", method, status)));
+                }
+                Ok(())
+            }
+            Ok(Some(nf)) => {
+                if !has_location {
+                    return Err((self.k("redirect", "followed-without-location"), "a new flow was produced without a Location header".into()));
+                }
+                if want.as_deref() != Some(nf.method().as_str()) {
+                    return Err((self.k("redirect", "wrong-method"), format!("{} {}: new flow has method {}, expected {:?}", method, status, nf.method(), want)));
+                }
+                // the new flow must be fully usable: a complete second exchange
+                let r = crate::engine::guarded(|| -> Result<(), String> {
+                    let mut sr = nf.proceed();
+                    let mut buf = vec![0u8; 8192];
+                    match sr.write(&mut buf) {
+                        Err(_) => return Ok(()), // the library refuses to write it (e.g. inherited chunked header on a GET): nothing emitted
+                        Ok(0) => return Err("second exchange: head write emitted nothing".into()),
+                        Ok(_) => {}
+                    }
+                    let mut cur = AnyFlow::SendRequest(sr);
+                    let mut steps = 0;
+                    loop {
+                        steps += 1;
+                        if steps > 12 {
+                            return Err(format!("second exchange stuck in {}", cur.name()));
+                        }
+                        cur = match cur {
+                            AnyFlow::RecvResponse(mut f) => {
+                                let (n, resp) = f.try_response(b"HTTP/1.1 200 OK\r\nContent-Length: 0\r\n\r\n").map_err(|e| format!("second exchange try_response: {:?}", e))?;
+                                if n != 38 || resp.is_none() {
+                                    return Err("second exchange: response not accepted".into());
+                                }
+                                AnyFlow::RecvResponse(f).proceed()?.ok_or("second exchange: cannot leave RecvResponse")?
+                            }
+                            AnyFlow::Cleanup(_) => return Ok(()),
+                            AnyFlow::SendBody(_) | AnyFlow::Await100(_) => return Err(format!("second exchange entered {} although a redirected request carries no body", cur.name())),
+                            o => o.proceed()?.ok_or("second exchange: proceed refused")?,
+                        };
+                    }
+                });
+                match r {
+                    Ok(Ok(())) => Ok(()),
+                    Ok(Err(e)) => Err((self.k("redirect", "new-flow-unusable"), e)),
+                    Err(p) => Err((self.k("redirect", &format!("new-flow-panics:{}", crate::engine::panic_site(&p))), p)),
+                }
+            }
+        }
+    }
+
     /// pure queries must not change the state (run on a clone, compare fingerprints)
     fn queries_pure(&self) -> R {
         let fp = self.flow.fp();
@@ -759,7 +858,7 @@ impl Sys for Exch {
             self.resp.is_some(),
             self.resp_body_out,
             self.redirect_verdict,
-        )
+        ) + &format!("|fol={}", self.followed)
     }
 
     fn actions(&self) -> Vec<Act> {
@@ -788,6 +887,9 @@ impl Sys for Exch {
             AnyFlow::SendRequest(f) => {
                 if f.can_proceed() {
                     v.push(Act::Proceed);
+                    if m.extra_calls {
+                        v.push(Act::HeadWrite(4096));
+                    }
                 } else {
                     for &b in &m.head_bufs {
                         v.push(Act::HeadWrite(b));
@@ -808,6 +910,9 @@ impl Sys for Exch {
             AnyFlow::SendBody(f) => {
                 if f.can_proceed() {
                     v.push(Act::Proceed);
+                    if m.extra_calls {
+                        v.push(Act::BodyWrite(0, 4096));
+                    }
                 } else {
                     let remaining = self.cfg.body.len() - self.body_in;
                     let mut is: Vec<usize> = Vec::new();
@@ -864,7 +969,13 @@ impl Sys for Exch {
                     arrive(&mut v);
                 }
             }
-            AnyFlow::Redirect(_) => v.push(Act::Proceed),
+            AnyFlow::Redirect(_) => {
+                v.push(Act::Proceed);
+                if m.extra_calls && self.followed < 2 {
+                    v.push(Act::Follow(false));
+                    v.push(Act::Follow(true));
+                }
+            }
             _ => {}
         }
         v
@@ -891,6 +1002,7 @@ impl Sys for Exch {
             Act::TryResponse => self.step_try_response(),
             Act::Read(b) => self.step_read(*b),
             Act::Proceed => self.step_proceed(false),
+            Act::Follow(p) => self.step_follow(*p),
         }
     }
 
